@@ -76,21 +76,58 @@ such a row performs no action -/
 def switchRow (c : CRow) : Bool :=
   switchTypes.contains c.row.type && c.row.nodeUuid.isEmpty && c.row.nodeName.isEmpty && c.refAct.isNone
 
-def rowOk (c : CRow) : Bool := plainActionRow c || switchRow c
+/-- a `hard_exit` / `loose_exit` row: the paths its edges continue end there -/
+def exitRow (c : CRow) : Bool :=
+  (decide (c.row.type = "hard_exit".toList) || decide (c.row.type = "loose_exit".toList)) && c.row.nodeUuid.isEmpty
+
+/-- a `go_to` row: its edges enter the named rows -/
+def gotoRow (c : CRow) : Bool := decide (c.row.type = "go_to".toList) && c.row.nodeUuid.isEmpty
+
+def fixedTypes : List Str := ["start_new_flow", "call_webhook", "transfer_airtime"].map String.toList
+
+/-- a row with fixed outcomes (`start_new_flow`: Complete / Expired; `call_webhook`,
+`transfer_airtime`: Success / Failure) that stands for itself; it performs its own action -/
+def fixedRow (c : CRow) : Bool :=
+  fixedTypes.contains c.row.type && c.row.nodeUuid.isEmpty && c.row.nodeName.isEmpty &&
+  decide (c.refAct = some (c.row.ownAction.getD []))
+
+/-- a `split_random` row that stands for itself; it performs no action -/
+def randomRow (c : CRow) : Bool :=
+  decide (c.row.type = "split_random".toList) && c.row.nodeUuid.isEmpty && c.row.nodeName.isEmpty &&
+  c.refAct.isNone
+
+/-- a row of the fragment that produces a node -/
+def nodeRowOk (c : CRow) : Bool := plainActionRow c || switchRow c || fixedRow c || randomRow c
+
+def rowOk (c : CRow) : Bool := nodeRowOk c || exitRow c || gotoRow c
 
 def isNR (c : RefFlow.Cond) : Bool := RefFlow.lower c.value = "no response".toList
 
-/-- the edges leaving a row are read with one meaning only: an action row is left unconditionally;
-a condition on an edge leaving a `wait_for_response` row names no variable (the operand stays the
-reply) and no category; a condition leaving a split row is not the reserved "no response" and names
-no category -/
+/-- the name of the bucket an edge leaving a `split_random` row stands for (empty: a new, unnamed
+bucket) -/
+def bucketName (c : RefFlow.Cond) : Str := if c.name.isEmpty then c.value else c.name
+
+/-- bucket names the two readings generate themselves (`Bucket N` / `#n`) are not used explicitly -/
+def bucketNameOk (nm : Str) : Bool :=
+  nm.isEmpty || !(decide (nm.take 7 = "Bucket ".toList) || decide (nm.head? = some '#'))
+
+/-- the edges leaving a row are read with one meaning only: a condition on an edge leaving an action
+row is not the reserved "no response"; a condition on an edge leaving a `wait_for_response` row names
+no variable (the operand stays the reply); a condition leaving a split row is not the reserved "no
+response"; a bucket of a `split_random` row is not given one of the generated bucket names; the
+edges leaving a fixed-outcome row are unrestricted (an outcome word that does not exist is an error
+of the compiler) -/
 def edgeOk (rows : List CRow) (e : RefFlow.OutEdge) : Bool :=
-  e.cond.blank ||
   match (rows[e.src]?).map (fun c => kindOf c.row.type) with
-  | some .wait => e.cond.var.isEmpty && e.cond.name.isEmpty
-  | some .splitValue => !isNR e.cond && e.cond.name.isEmpty
-  | some .splitGroup => !isNR e.cond && e.cond.name.isEmpty
-  | _ => false
+  | some .wait => e.cond.blank || e.cond.var.isEmpty
+  | some .splitValue => e.cond.blank || !isNR e.cond
+  | some .splitGroup => e.cond.blank || !isNR e.cond
+  | some .splitRandom => bucketNameOk (bucketName e.cond)
+  | some .enterFlow => true
+  | some .webhook => true
+  | some .airtime => true
+  | some .action => e.cond.blank || !isNR e.cond
+  | _ => e.cond.blank
 
 /-- the test a conditional edge leaving a row of kind `k` stands for -/
 def refTest (k : RefFlow.Kind) (c : RefFlow.Cond) : Str × List Str :=
@@ -105,19 +142,81 @@ def testsOf (k : RefFlow.Kind) (es : List RefFlow.OutEdge) : List RefFlow.OutEdg
 def distinctTests (rows : List CRow) (out : List RefFlow.OutEdge) : Bool :=
   (List.range rows.length).all fun j =>
     match rows[j]? with
-    | some c => decide (((testsOf (kindOf c.row.type) (out.filter (·.src = j))).map
+    | some c => !(switchTypes.contains c.row.type || decide (kindOf c.row.type = .action)) ||
+      decide (((testsOf (kindOf c.row.type) (out.filter (·.src = j))).map
         (fun e => refTest (kindOf c.row.type) e.cond)).Nodup)
     | none => true
 
-/-- fragment F2: action rows and deciding rows (`wait_for_response` with or without timeout,
-`split_by_value`, `split_by_group`), any number of edges per row with explicit `from` row ids, blank
-`from` or `start` — chains, trees, joins, last-edge-wins defaults, tests appended in row order,
-"No Response" branches — under the single-meaning conditions `edgeOk` and `distinctTests`, which
-are read off the edges the reference interpretation resolves -/
+/-- the variable the conditional edges leaving an action row decide on (empty: the reply) -/
+def implVar (es : List RefFlow.OutEdge) : Str :=
+  (((es.filter (fun e => !e.cond.blank)).head?).map (·.cond.var)).getD []
+
+/-- the conditional edges leaving one action row name the same variable (or none of them names one):
+the router the compiler puts behind the row's node decides on the variable of the edge added last,
+and waits for a reply iff the edge added first names none -/
+def sameVars (rows : List CRow) (out : List RefFlow.OutEdge) : Bool :=
+  (List.range rows.length).all fun j =>
+    match rows[j]? with
+    | some c => !decide (kindOf c.row.type = .action) ||
+      ((out.filter (·.src = j)).filter (fun e => !e.cond.blank)).all
+        (fun e => decide (e.cond.var = implVar (out.filter (·.src = j))))
+    | none => true
+
+/-! #### category names -/
+
+/-- `generate_category_name` on the list of the names in use: title-cased arguments joined by `_`,
+`_alt` appended until free -/
+def genName (names : List Str) (args : List (Option Str)) : Str :=
+  let rec go (fuel : Nat) (n : Str) : Str :=
+    match fuel with
+    | 0 => n
+    | f + 1 => if names.contains n then go f (n ++ "_alt".toList) else n
+  go (names.length + 1) (Compile.joinUnderscore (args.map fun a => Compile.pyTitle (Compile.argStr a)))
+
+/-- the arguments of the test a condition stands for -/
+def argsOf (k : RefFlow.Kind) (c : RefFlow.Cond) : List (Option Str) :=
+  if k = .splitGroup then [none, some c.value] else [some c.value]
+
+/-- the categories a switch has before any test: the default one, and the timeout one -/
+def baseNames (k : RefFlow.Kind) (tmo : Nat) : List Str :=
+  "Other".toList :: (if k = .wait ∧ tmo ≠ 0 then ["No Response".toList] else [])
+
+/-- the name of the category of a new test, given the names `tn` of the categories of the tests so far:
+the explicit one, or a generated one -/
+def catNameOf (k : RefFlow.Kind) (tmo : Nat) (tn : List Str) (c : RefFlow.Cond) : Str :=
+  if c.name.isEmpty then genName (tn ++ baseNames k tmo) (argsOf k c) else c.name
+
+/-- the names of the categories of the tests `ts`, in order, starting from `tn` -/
+def namesFrom (k : RefFlow.Kind) (tmo : Nat) : List Str → List RefFlow.OutEdge → List Str
+  | tn, [] => tn
+  | tn, e :: ts => namesFrom k tmo (tn ++ [catNameOf k tmo tn e.cond]) ts
+
+/-- an explicit category name is not in use when its test is added (a name in use would make the
+compiler SHARE the category — the new test would redirect the other test's answer —, the
+documentation describes separate answers) -/
+def namesOk (k : RefFlow.Kind) (tmo : Nat) : List Str → List RefFlow.OutEdge → Bool
+  | _, [] => true
+  | tn, e :: ts =>
+    (e.cond.name.isEmpty || !(tn ++ baseNames k tmo).contains e.cond.name) &&
+    namesOk k tmo (tn ++ [catNameOf k tmo tn e.cond]) ts
+
+def freshNames (rows : List CRow) (out : List RefFlow.OutEdge) : Bool :=
+  (List.range rows.length).all fun j =>
+    match rows[j]? with
+    | some c => !(switchTypes.contains c.row.type || decide (kindOf c.row.type = .action)) ||
+      namesOk (kindOf c.row.type) (timeoutOf c.row) [] (testsOf (kindOf c.row.type) (out.filter (·.src = j)))
+    | none => true
+
+/-- the fragment of the universal theorem `Props.C02.C02_fragment`: all row types of a core sheet
+except `no_op` and `insert_as_block`, rows standing for themselves (`rowOk`: no given node identifier
+or node name, the action as the documentation describes it), any number of edges per row with
+explicit `from` row ids, blank `from` or `start`, under the single-meaning conditions `edgeOk`,
+`distinctTests`, `sameVars` and `freshNames`, which are read off the edges the reference
+interpretation resolves -/
 def inFragment (rows : List CRow) : Bool :=
   rows.all rowOk &&
   match RefFlow.pass1 (rows.map toRRow) with
-  | .ok out => out.all (edgeOk rows) && distinctTests rows out
+  | .ok out => out.all (edgeOk rows) && distinctTests rows out && sameVars rows out && freshNames rows out
   | .error _ => true
 
 end Rpft.CoreSheet
